@@ -68,6 +68,8 @@ func runC03(c *Ctx) {
 	r.Rule("R8-own-verifier-redeemed", "every Redeem implementation sends the verifier of this login's CSRF cookie as code_verifier, so a callback with its own state and cookie can complete under PKCE (shared with C05.R9)", 4)
 	r.Rule("R10-state-split-at-first-colon", "decodeState divides nonce:redirect at the first colon only, so the login's own state decodes whatever the application redirect contains (round 7)", 1)
 	runFirstColonRule(c, "R10-state-split-at-first-colon", "main.decodeState")
+	r.Rule("R11-state-sent-verbatim", "makeLoginURL sends the state exactly as handed in, so the state echoed back is the one the CSRF cookie was derived from (shared with C06.R11, round 8)", 2)
+	runLoginURLParamsVerbatim(c, "R11-state-sent-verbatim")
 	r.Rule("R9-login-params-fresh", "LoginURLParams returns a map made for this request, never the provider's shared default map", 1)
 	r.Rule("R6-clears-own-cookie-only", "csrf.ClearCookie deletes exactly its own cookie", 2)
 	r.Rule("R5-name-agreement", "cookieName and ExtractStateSubstring cut the hashed state at the same constant, and the latter returns its cut whenever it made one; encodeState/decodeState agree on field order", 5)
